@@ -42,6 +42,7 @@ EXC_CHOICES = [
     "KeyError",
     "EmptyMessage",
     "Multiline",
+    "StopIteration",
 ]
 SITES = ["objective", "group", "fill_item", "matrix", "residual", "line"]
 
